@@ -456,6 +456,8 @@ class Caller:
                     nn[a] = dec_val(getattr(self.px['N'], a), cat)
                 except AttributeError:
                     nn[a] = -1
+                except Exception:  # noqa: BLE001 - reading a missing attribute must raise AttributeError; anything
+                    nn[a] = -99                          # else shows up as a final-state mismatch (an impossible value)
             st['N'] = nn
         return st
 
